@@ -11,7 +11,15 @@ package harness
 //	           (none)|(timeout) ...)            one per op
 //	      (serve running|nil|err|other)          what Serve returned in the end
 //	      (conns open|closed|finished ...)       per accepted connection
-//	      (accepts n<calls of Accept>))
+//	      (accepts n<calls of Accept>)
+//	      [(liserr once|always)])               the listener's Close returns an error
+//
+// liserr: the scripted listener's Close does what it always does (Accept
+// fails from then on) and then RETURNS an error - the first time it is called
+// (once) or every time (always); the usual real cause is a listener the
+// application has closed itself.  Server.Close / Shutdown must remember the
+// error, carry on (close every connection / wait for the handlers) and return
+// it at the end: ret / sdret `liserr`.
 //
 // wclose / wshutdown: Close / Shutdown with a connection in the window between
 // Accept's return and its handler's registration in s.conns.  The window is
@@ -57,6 +65,7 @@ func (lifeTempErr) Temporary() bool { return true }
 
 var errLifePerm = errors.New("verif: permanent accept error")
 var errLifeClosed = errors.New("verif: listener closed")
+var errLifeLisClose = errors.New("verif: the listener's Close reports an error")
 
 type lifeItem struct {
 	conn net.Conn
@@ -72,6 +81,8 @@ type lifeListener struct {
 	ncalls int
 	retAt  time.Time // when the last Accept returned
 	onClose func()   // run once by Close before the listener is closed
+	failClose string // "", "once", "always": Close returns errLifeLisClose
+	nClose    int    // calls of Close
 }
 
 func newLifeListener() *lifeListener {
@@ -105,6 +116,12 @@ func (l *lifeListener) Close() error {
 		}
 		close(l.closed)
 	})
+	l.mu.Lock()
+	defer l.mu.Unlock()
+	l.nClose++
+	if l.failClose == "always" || (l.failClose == "once" && l.nClose == 1) {
+		return errLifeLisClose
+	}
 	return nil
 }
 
@@ -196,13 +213,24 @@ func lifeRetName(err error) string {
 		return "ctx"
 	case err == errLifePerm:
 		return "err"
+	case err == errLifeLisClose:
+		return "liserr"
 	}
 	return "other"
 }
 
 // RunLife drives one scripted life cycle and returns the case line.
 func RunLife(ops []lifeOp, pendingProbe time.Duration) *Sx {
+	return RunLifeF(ops, pendingProbe, "")
+}
+
+// RunLifeF: the same with a listener whose Close returns an error
+// (lisFail "once" / "always"; "" = a listener that closes cleanly).
+func RunLifeF(ops []lifeOp, pendingProbe time.Duration, lisFail string) *Sx {
 	l := newLifeListener()
+	l.failClose = lisFail
+	// the call went through: it did its work and returned nil or the listener's error
+	wentThrough := func(err error) bool { return err == nil || (lisFail != "" && err == errLifeLisClose) }
 	s := smtp.NewServer(lifeBackend{})
 	s.Domain = "verif"
 	s.ErrorLog = log.New(io.Discard, "", 0)
@@ -369,6 +397,20 @@ func RunLife(ops []lifeOp, pendingProbe time.Duration) *Sx {
 							c.state = "closed"
 						}
 					}
+				} else if wentThrough(err) {
+					// the listener's error: the same is expected.  Close has closed the
+					// registered connections before it returned, so a short wait is
+					// enough to see that one was left open
+					waitServe()
+					for _, c := range conns {
+						if c.state == "open" {
+							select {
+							case <-c.server.closed:
+								c.state = "closed"
+							case <-time.After(300 * time.Millisecond):
+							}
+						}
+					}
 				}
 				if wc != nil {
 					if wc.state == "" {
@@ -436,7 +478,7 @@ func RunLife(ops []lifeOp, pendingProbe time.Duration) *Sx {
 			case err := <-ch:
 				cancel()
 				obs.Add(L(A("ret"), A(lifeRetName(err))))
-				if err == nil {
+				if wentThrough(err) {
 					waitServe()
 				}
 			case <-time.After(wait):
@@ -524,6 +566,9 @@ func RunLife(ops []lifeOp, pendingProbe time.Duration) *Sx {
 	n := l.ncalls
 	l.mu.Unlock()
 	res := L(A("life"), opsx, obs, L(A("serve"), A(serveRes)), cs, L(A("accepts"), Num(int64(n))))
+	if lisFail != "" {
+		res.Add(L(A("liserr"), A(lisFail)))
+	}
 
 	// clean up
 	if sdCancel != nil {
@@ -584,7 +629,7 @@ func GenLife(rng *rand.Rand, thorough bool, emit func(*Sx)) {
 	}
 	rec(nil, 0)
 	// random: mostly sensible scripts (accepts first, then a stop, then finishes)
-	for i := 0; i < nRandom; i++ {
+	randScript := func() []lifeOp {
 		n := 4 + rng.Intn(6)
 		var ops []lifeOp
 		temps := 0
@@ -622,7 +667,10 @@ func GenLife(rng *rand.Rand, thorough bool, emit func(*Sx)) {
 			}
 			ops = append(ops, o)
 		}
-		emit(RunLife(ops, probe))
+		return ops
+	}
+	for i := 0; i < nRandom; i++ {
+		emit(RunLife(randScript(), probe))
 	}
 	// the cap: 5 10 20 40 80 160 320 640 1000 1000 ms, with accepts in between
 	capOps := []lifeOp{}
@@ -634,6 +682,7 @@ func GenLife(rng *rand.Rand, thorough bool, emit func(*Sx)) {
 	}
 	capOps = append(capOps, lifeOp{kind: "shutdown"}, lifeOp{kind: "finish", k: 1}, lifeOp{kind: "expire"}, lifeOp{kind: "close"})
 	emit(RunLife(capOps, probe))
+	genLifeListenerFault(rng, thorough, probe, randScript, emit)
 	if thorough {
 		capOps2 := []lifeOp{}
 		for i := 0; i < 11; i++ {
@@ -641,5 +690,77 @@ func GenLife(rng *rand.Rand, thorough bool, emit func(*Sx)) {
 		}
 		capOps2 = append(capOps2, lifeOp{kind: "perm"}, lifeOp{kind: "close"}, lifeOp{kind: "shutdown"})
 		emit(RunLife(capOps2, probe))
+	}
+}
+
+// genLifeListenerFault: the listener's Close returns an error (once / always)
+// during Close, Shutdown, and both with a connection in the accept window,
+// with connections in every state - none, registered and served, finished,
+// several, Serve already gone after a permanent Accept error (the realistic
+// cause: the listener has been closed behind the server's back) - followed by
+// the events that tell "carried on" from "stopped at the error": second calls,
+// the peers finishing in both orders, the context expiring.
+func genLifeListenerFault(rng *rand.Rand, thorough bool, probe time.Duration, randScript func() []lifeOp, emit func(*Sx)) {
+	conn, temp, perm := lifeOp{kind: "conn"}, lifeOp{kind: "temp"}, lifeOp{kind: "perm"}
+	fin := func(k int) lifeOp { return lifeOp{kind: "finish", k: k} }
+	cl, sd, expire := lifeOp{kind: "close"}, lifeOp{kind: "shutdown"}, lifeOp{kind: "expire"}
+	prefixes := [][]lifeOp{
+		{},
+		{conn},
+		{conn, conn},
+		{conn, fin(0)},
+		{conn, conn, fin(0)},
+		{conn, conn, fin(1)},
+		{temp, conn},
+		{perm},
+		{conn, perm},
+		{conn, conn, fin(0), perm},
+	}
+	stops := []lifeOp{cl, sd, {kind: "wclose"}, {kind: "wshutdown"}}
+	conts := [][]lifeOp{
+		{},
+		{cl},
+		{sd},
+		{fin(0), fin(1), fin(2)},
+		{fin(2), fin(1), fin(0), expire},
+		{expire, fin(0), fin(1)},
+		{cl, fin(0), sd},
+		{fin(0), sd, fin(1), cl},
+		{conn, fin(1), expire, cl},
+	}
+	for _, mode := range []string{"once", "always"} {
+		for _, p := range prefixes {
+			for _, st := range stops {
+				for _, ct := range conts {
+					ops := append(append(append([]lifeOp{}, p...), st), ct...)
+					emit(RunLifeF(ops, probe, mode))
+				}
+			}
+		}
+	}
+	// every short sequence once more with the failing listener
+	var rec func(prefix []lifeOp)
+	rec = func(prefix []lifeOp) {
+		if len(prefix) > 0 {
+			emit(RunLifeF(prefix, probe, "once"))
+		}
+		if len(prefix) == 2 || (thorough && len(prefix) == 3) {
+			return
+		}
+		for _, o := range lifeAlphabet {
+			rec(append(append([]lifeOp{}, prefix...), o))
+		}
+	}
+	rec(nil)
+	n := 60
+	if thorough {
+		n = 700
+	}
+	for i := 0; i < n; i++ {
+		mode := "once"
+		if rng.Intn(2) == 0 {
+			mode = "always"
+		}
+		emit(RunLifeF(randScript(), probe, mode))
 	}
 }
